@@ -124,6 +124,27 @@ def boundary_cases(bases):
     return out
 
 
+def handbuilt_cases(bases):
+    """rich sections built by hand (replace_chk_section) holding an object at / beyond each table limit, and a trigger
+    that refers to it: implementation only, judged by the structural validator"""
+    out = []
+    for label, base in bases:
+        for idx in (0, 1, 64, 255, 256, 300, 70000):
+            out.append((f"{label}:handbuilt-loc-{idx}", base,
+                        {"pool": {"locs": [[1, 1, 2, 2, "hand", idx, [True] * 6]], "switches": [], "cuwps": []},
+                         "ops": [["put_in_sections", {"locs": [0]}], _trigs(_loc_acts([0]))]}))
+        for idx in (0, 1, 64, 65, 300):
+            out.append((f"{label}:handbuilt-cuwp-{idx}", base,
+                        {"pool": {"locs": [[1, 1, 2, 2, None, None, [True] * 6]], "switches": [],
+                                  "cuwps": [[9, 8, 7, 6, 5, [False] * 5, [True] * 5 + [False], [True] * 6 + [False], False, 0, idx]]},
+                         "ops": [["put_in_sections", {"cuwps": [0]}], _trigs(_cuwp_acts([0]))]}))
+        for idx in (0, 255, 256, 300):
+            out.append((f"{label}:handbuilt-switch-{idx}", base,
+                        {"pool": {"locs": [], "cuwps": [], "switches": [["hand switch", idx]]},
+                         "ops": [["put_in_sections", {"switches": [0]}], _trigs(_switch_acts([0]))]}))
+    return out
+
+
 def run(ck: vlib.Check):
     n = 80 if ck.tier == "quick" else 3000
     ck.rule = ("authored scenarios pushed to the format's limits on valid bases: 17..100 conditions / 65..100 actions, "
@@ -158,6 +179,20 @@ def run(ck: vlib.Check):
         impl.append(r)
         ck.evaluations += 1
         ck.note_case(label + json.dumps(spec, sort_keys=True)[:1500])
+        if r[0] == 0:
+            outcomes["raises"] += 1
+            continue
+        problems = validator.validate(bytes(r[1]))
+        if problems:
+            ck.violation(f"{label}: the emitted CHK is not structurally valid: {problems[0]}",
+                         {"kind": "invalid", "label": label, "base_hex": base.hex(), "spec": spec, "problems": problems[:5]}, True)
+        else:
+            outcomes["valid-output"] += 1
+    for label, base, spec in handbuilt_cases(fixed):
+        r = A.run_impl(base, spec)
+        ck.evaluations += 1
+        ck.note_case(label)
+        hows["handbuilt"] = hows.get("handbuilt", 0) + 1
         if r[0] == 0:
             outcomes["raises"] += 1
             continue
